@@ -29,6 +29,12 @@ def make_prog(rng, base=None, opts=None):
     for s in spec.all_sets(tree):
         for b in s["bindings"]:
             kinds[b["iface"] // 2] = "iface"
+    # a binding whose "concrete" type is itself an interface type (provided by a function or a value)
+    for s in spec.all_sets(tree):
+        for b in s["bindings"]:
+            ck = b["conc"] // 2
+            if b["conc"] % 2 == 0 and ck not in kinds and rng.random() < opts.get("iface_conc_p", 0.12):
+                kinds[ck] = "iface"
     prog["kinds"] = kinds
     # packages: 0 = app (injector package), 1 = lib
     def assign(s, parent_pkg):
@@ -105,6 +111,15 @@ def make_prog(rng, base=None, opts=None):
                 if q["id"] == p["id"]:
                     q["args"] = q["args"] + [extra]
             prog["defect"] += "+dup-param"
+    # ... and a struct provider with two selected fields of one type
+    if rng.random() < opts.get("dup_field_p", 0.04):
+        fp = [p for p in allp if p["struct"] and p["args"]]
+        if fp:
+            p = rng.choice(fp); extra = rng.choice(p["args"])
+            for q in allp:
+                if q["id"] == p["id"]:
+                    q["args"] = q["args"] + [extra]; q["fields"] = q["fields"] + ["F%d" % len(q["fields"])]
+            prog["defect"] += "+dup-field"
     # a value expression written in a library set that mentions an unexported field (C13/C01: not accessible
     # from the injector's package)
     if rng.random() < opts.get("unexported_p", 0.08):
@@ -166,7 +181,7 @@ def make_prog(rng, base=None, opts=None):
             if kinds.get(ft // 2) == "iface" and ft % 2:
                 continue
             name = "X%d" % p["id"]
-            prog["extra_fields"][k] = {"name": name, "t": ft, "tag": tag}
+            prog["extra_fields"][k] = {"name": name, "t": ft, "tag": tag, "first": Render.prevented(tag) and rng.random() < 0.5}
             if prog["star"] and not Render.prevented(tag):
                 for q in allp:      # every copy of the provider (a set reached along two paths is duplicated in the tree)
                     if q["struct"] and q["outs"][0] // 2 == k and name not in q["fields"]:
@@ -217,6 +232,7 @@ def renderable(prog):
     kinds = prog["kinds"]
     odd_iface = set()
     val_fields = {}
+    bound_ifaces = {b["iface"] // 2 for s in spec.all_sets(tree) for b in s["bindings"]}
     for s in spec.all_sets(tree):
         for p in s["providers"]:
             for t in p["outs"] + p["args"]:
@@ -238,7 +254,9 @@ def renderable(prog):
                 return "field of interface type"
             val_fields.setdefault(f["parent"] // 2, set()).add(f["outs"][0] // 2)
         for b in s["bindings"]:
-            if b["iface"] % 2 or kinds.get(b["conc"] // 2) == "iface":
+            if b["iface"] % 2 or (kinds.get(b["conc"] // 2) == "iface" and b["conc"] % 2):
+                return "binding chain / pointer to interface"
+            if b["conc"] // 2 in bound_ifaces:      # the concrete side is itself bound (chain, self binding): outside the documented form
                 return "binding chain / pointer to interface"
     for t in prog["given"] + [prog["out"]]:
         if t % 2 and kinds.get(t // 2) == "iface":
@@ -344,7 +362,10 @@ class Render:
             td = touch(2 * k)
             touch(xf["t"])
             if xf["name"] not in {f["name"] for f in td["fields"]}:
-                td["fields"].append({"name": xf["name"], "t": xf["t"], "tag": xf["tag"], "sp": False})
+                if xf.get("first"):      # a prevented field declared before the selected ones
+                    td["fields"].insert(0, {"name": xf["name"], "t": xf["t"], "tag": xf["tag"], "sp": False})
+                else:
+                    td["fields"].append({"name": xf["name"], "t": xf["t"], "tag": xf["tag"], "sp": False})
         for s in spec.all_sets(tree):
             for pr in s["providers"]:
                 if pr["struct"]:
@@ -488,9 +509,12 @@ class Render:
             td = self.types[k]
             n = self.tn(k)
             if td["kind"] == "iface":
-                L.append("type %s interface {\n\tDesc() string\n\tIs%d()\n}\n" % (n, k))
+                more = sorted((td["impl"] | td["ptrimpl"]) - {k})      # interfaces this interface type is bound to
+                L.append("type %s interface {\n\tDesc() string\n\tIs%d()\n%s}\n" % (n, k, "".join("\tIs%d()\n" % i for i in more)))
                 L.append("type Impl%d struct{ ID string }\n" % k)
                 L.append("func (x Impl%d) Desc() string { return x.ID }\nfunc (x Impl%d) Is%d() {}\n" % (k, k, k))
+                for i in more:
+                    L.append("func (x Impl%d) Is%d() {}\n" % (k, i))
                 L.append("func NewImpl%d(id string) %s { return Impl%d{ID: id} }\n" % (k, n, k))
                 L.append('func DescI%d(x %s) string {\n\tif x == nil {\n\t\treturn "nil"\n\t}\n\treturn x.Desc()\n}\n' % (k, n))
                 continue
